@@ -8,13 +8,13 @@ Q = ('quick', 'thorough'); T = ('thorough',)
 LISTENERS = ['client itself', 'STARTTLS step', 'legacy-auth step (idle)', 'SASL step', 'SASL2 step', 'stream-management step', 'bind step', 'legacy-auth step (auth query pending)']
 REQ = ['none', 'resume', 'enable']
 # VP_CFG bits (c10.h)
-def cfg(L=0, N=0, trynext=False, redirect=False, req=0, session=None, ev=0, idx=None):
+def cfg(L=0, N=0, trynext=False, redirect=False, req=0, session=None, ev=0, idx=None, noreq=False):
     return (L | N << 3 | (32 if trynext else 0) | (64 if redirect else 0) | req << 7 | (512 if session is True else 1024 if session is False else 0)
-            | (0 if idx is None else 2048 | idx << 12) | ev << 14)
-def fixed(L=0, N=0, trynext=False, redirect=False, req=0, session=None, ev=0, idx=None):
+            | (0 if idx is None else 2048 | idx << 12) | ev << 14 | (1 << 19 if noreq else 0))
+def fixed(L=0, N=0, trynext=False, redirect=False, req=0, session=None, ev=0, idx=None, noreq=False):
     return 'listener = %s, %d known server address(es)%s, %s%s%s%s' % (
         LISTENERS[L], N, ' (index of the next one %s)' % ('arbitrary' if idx is None else idx), 'next address selected (TryNext), ' if trynext else '', 'see-other-host redirect pending, ' if redirect else '',
-        'pending stream-management request: %s, ' % REQ[req], 'session ' + {None: 'arbitrary', True: 'established', False: 'not established'}[session])
+        'pending stream-management request: %s, ' % REQ[req], 'session ' + {None: 'arbitrary', True: 'established', False: 'not established'}[session] + (', no outstanding requests' if noreq else ''))
 def I(name, entry, what, tiers=Q, **c):
     kw = {k: c.pop(k) for k in list(c) if k in ('known_finding', 'timeout_s', 'mem_gb')}
     d = dict(name=name, entry='h_' + entry, unwind=5, timeout_s=300, mem_gb=3, tiers=tiers,
@@ -24,7 +24,7 @@ def I(name, entry, what, tiers=Q, **c):
 def BI(a, m, r):
     i = I('bind_%s%s%s' % (['result', 'error', 'nobind'][a], '_sm' if m else '', '_nojid' if (a == 0 and not r) else ''), 'bind_answer',
           'real startResourceBinding step (stream management %s), then handlePacketReceived(%s)' % (['not offered', 'offered'][m], ['<iq type=result id=ID><bind><jid>2 arbitrary units, %s</jid></bind></iq>' % ['not a full JID', 'a full JID'][r], '<iq type=error id=ID><bind/></iq>', '<iq type=result id=ID/>'][a]),
-          session=False, ev=a | m << 2, tiers=Q if (a, m, r) in ((0, 0, 1), (0, 1, 1)) else T)
+          session=False, ev=a | m << 2, noreq=bool(m), tiers=Q if (a, m, r) in ((0, 0, 1), (0, 1, 1)) else T)
     i['cdefs'].update({'C10_RE_MATCHES': r})
     if a == 0 and not r: i['cdefs']['QS_CAP'] = 96      # the error text 'Resource binding failed: ...' is longer than the default string capacity
     return i
@@ -83,10 +83,12 @@ INST = (
        I('stream_error_condition', 'stream_error', 'handleStreamError(any defined stream error condition; text <= 2 units)', ev=0),
        I('redirect_roundtrip', 'redirect_roundtrip', 'handleStreamError(see-other-host), then socket disconnected', ev=1, session=False, N=1)]
 )
+import os
+if os.environ.get('C10_DEBUG'): INST = INST + [I('dbg', 'dbg', 'debug', session=False)]
 SPEC = dict(
     property='C10',
     groups=[
-        dict(name='step', harness='h.cpp', tus=TUS, models=MODELS, shadow_task=True,
+        dict(name='step', harness='h.cpp', tus=TUS, models=MODELS, shadow_task=True, cxxdefs=({'C10_DEBUG': 1} if os.environ.get('C10_DEBUG') else {}),
              loop_bounds={r'^_ZNSt6ranges14__copy_or_move': 110},
              instances=INST),
     ],
